@@ -44,7 +44,39 @@ def design(tier):
     if r["violated"] != "Order":
         raise Machinery("the original enhance_resolution rule is not rejected by Order")
     out["deviations_rejected"] = ["resolution *= decrease_resolution_factor without the radius_final floor"]
+    out["apalache"] = inductive()
     return out
+
+
+def inductive():
+    """Unbounded safety with Apalache: radius_final <= resolution <= radius is an inductive invariant of
+    spec/apalache/TrustRegionInd.tla (arbitrary integer lengths); the original rule must fail the step."""
+    import shutil
+    import subprocess
+    from .common import SPEC
+    if shutil.which("apalache-mc") is None:
+        return {"ran": False, "why": "apalache-mc not found"}
+    d = os.path.join(SPEC, "apalache")
+    outdir = os.path.join(OUT, "apa")
+
+    def run(module, init, length):
+        p = subprocess.run(["apalache-mc", "check", f"--init={init}", "--inv=IndInv", f"--length={length}",
+                            f"--out-dir={outdir}", module], cwd=d, capture_output=True, text=True, timeout=600)
+        return "The outcome is: NoError" in p.stdout, p.stdout[-1500:]
+    try:
+        base, o1 = run("MC_TRI.tla", "Init", 0)
+        step, o2 = run("MC_TRI.tla", "IndInit", 1)
+        dev, o3 = run("MC_TRI_dev.tla", "IndInit", 1)
+    except subprocess.TimeoutExpired:
+        return {"ran": False, "why": "timeout"}
+    finally:
+        shutil.rmtree(outdir, ignore_errors=True)
+    if not (base and step):
+        raise Machinery("Apalache: the invariant of TrustRegionInd.tla is not inductive\n" + o1 + o2)
+    if dev:
+        raise Machinery("Apalache: the original enhance_resolution rule passes the induction step (vacuous)")
+    return {"ran": True, "obligations": ["Init => IndInv (length 0)", "IndInv /\\ Next => IndInv' (length 1)"],
+            "discharged": 2, "deviation_counterexample_found": True}
 
 
 def _export(consts, steps, tag):
